@@ -53,10 +53,10 @@ theorem frameLatin1_build_app {s : Session} {stamp : String} {m : Msg} {n : Int}
     simp only [isAppMsg, Bool.and_eq_true, List.all_eq_true] at ha
     have := ha.2 p hp
     obtain ⟨k, v⟩ := p
-    have a1 : k ≠ tMsgSeqNum := by rintro rfl; exact absurd this (by simp [hdrTags])
-    have a2 : k ≠ tSendingTime := by rintro rfl; exact absurd this (by simp [hdrTags])
-    have a3 : k ≠ tSenderCompID := by rintro rfl; exact absurd this (by simp [hdrTags])
-    have a4 : k ≠ tTargetCompID := by rintro rfl; exact absurd this (by simp [hdrTags])
+    have a1 : k ≠ tMsgSeqNum := by rintro rfl; exact absurd this (by simp [appTagOk, hdrTags, tBeginString, tBodyLength, tCheckSum, tMsgSeqNum, tMsgType, tPossDupFlag, tSenderCompID, tSendingTime, tTargetCompID, tOrigSendingTime])
+    have a2 : k ≠ tSendingTime := by rintro rfl; exact absurd this (by simp [appTagOk, hdrTags, tBeginString, tBodyLength, tCheckSum, tMsgSeqNum, tMsgType, tPossDupFlag, tSenderCompID, tSendingTime, tTargetCompID, tOrigSendingTime])
+    have a3 : k ≠ tSenderCompID := by rintro rfl; exact absurd this (by simp [appTagOk, hdrTags, tBeginString, tBodyLength, tCheckSum, tMsgSeqNum, tMsgType, tPossDupFlag, tSenderCompID, tSendingTime, tTargetCompID, tOrigSendingTime])
+    have a4 : k ≠ tTargetCompID := by rintro rfl; exact absurd this (by simp [appTagOk, hdrTags, tBeginString, tBodyLength, tCheckSum, tMsgSeqNum, tMsgType, tPossDupFlag, tSenderCompID, tSendingTime, tTargetCompID, tOrigSendingTime])
     simp [a1, a2, a3, a4]
   simp only [frameLatin1, buildFrame, bodyFields, hid, List.all_append, List.all_cons, List.all_nil, Bool.and_true,
     isLatin1_begin, isLatin1_natStr, isLatin1_pyStr, isLatin1_pad3, h1, h2, h3, Bool.true_and, msgLatin1]
